@@ -20,6 +20,7 @@ from contracts import common as K
 from contracts import envs as E
 
 ENV = "Tetris"
+PROPS = ("C01", "C04", "C05", "C07", "C09", "C11", "C12")  # C08: Tetris' reward is a per-step rule (covered by C09), not a return identity
 REWARDS = (0.0, 40.0, 100.0, 300.0, 1200.0)
 
 
@@ -184,9 +185,9 @@ def inv(env, s, T):
     for p in range(7):
         shown = jnp.where(s.tetromino_index == p, P[p], shown)
     return {**padding_empty(env, s.grid_padded),
-            "cells_nonnegative": s.grid_padded >= 0,
+            "cells_nonnegative": s.grid_padded[:R, :C] >= 0,
             # colour ids: every placement uses max+1, so ids never exceed the number of pieces placed (rules out int32 wrap-around)
-            "cell_values_at_most_pieces_placed": s.grid_padded <= s.step_count,
+            "cell_values_at_most_pieces_placed": s.grid_padded[:R, :C] <= s.step_count,
             "no_full_row_left": jnp.stack([~_all(occ[i]) for i in range(R)]),
             "tetromino_index_in_range": (s.tetromino_index >= 0) & (s.tetromino_index < 7),
             "new_tetromino_is_the_indexed_piece": s.new_tetromino == shown,
